@@ -106,9 +106,14 @@ def run(rep):
                 combos = [c for c in combos if not c[2]] or combos[:1]
             if variant % 5 == 1:
                 combos = [c for c in combos if c[2]] or combos[:1]
+        # names that are Rust keywords but not reserved in WGSL (naga accepts them): a generator that escapes them as raw identifiers must
+        # still key the map by the WGSL name
+        kw = {(0, 1): 'gen', (0, 6): 'dyn', (1, 3): 'box', (1, 12): 'gen'}
         for k, hid, d in combos:
             n += 1
             name = f'ov{n}' if variant == 0 else f'{k.lower()}_Const{n * 7}'
+            if (variant, n) in kw and not hid:
+                name = kw[(variant, n)]
             id_ = None if not hid else (100 + n if variant == 0 else (0 if n == 2 else 65535 - n))
             rows.append((name, k, id_, d))
             m.override(name, tys[k], id_=id_, init=d)
@@ -118,7 +123,8 @@ def run(rep):
         ev = K.SkelEval(ogp, model, {}, '', None)
         ev.markers = False
         ev.params.append({(q, p['pat']['name']): model.module for p in f['params']})
-        return ' '.join(str(ev.ev(summ)).split())
+        # a raw identifier `r#x` is the identifier `x` (string literals - the map keys - are left alone)
+        return ' '.join(tk[2:] if tk.startswith('r#') else tk for tk in str(ev.ev(summ)).split())
 
     def value_text(kind, x):
         return f'if {x} {{ 1.0 }} else {{ 0.0 }}' if kind == 'Bool' else f'{x} as f64'
